@@ -14,6 +14,13 @@ import (
 )
 
 func init() {
+	defer func() {
+		byProp["C15"] = append(byProp["C15"], "C14.ctx", "C02.delta")
+		byProp["C14"] = append(byProp["C14"], "C20.unregister")
+		explain["C15"] += " ctx (shared with C14): write_time and deadline live in the connection's context, so every write callback must pass the context as it is at the time of the call (sc.ctx), never a copy taken earlier. delta (shared with C02): every accepted statement is stored with its write time, also one that assigns the values the row already has — otherwise the row keeps an older time and a delayed older statement wins."
+		explain["C14"] += " unregister (shared with C20): an attach that fails on a storage fault leaves no registration behind, so the same name can be attached once the fault clears and name-based functions never find a table without a tree."
+	}()
+
 	register(&Rule{Name: "C15.conn", Min: 7, Run: c15Conn,
 		Doc: "s3db_conn protocol: every path that changes an attribute reinstalls the context; ResetContext installs each attribute iff set; columns, fields and arguments agree"})
 	register(&Rule{Name: "C15.scope", Min: 2, Run: c15Scope,
